@@ -53,6 +53,19 @@ def relational_discharge(path, ev):
             if (not truth) and ((o in ("Gt",) and x == sb and y == sa) or (o in ("Lt",) and x == sa and y == sb)):
                 return "guarded by !%s" % o
         # x - const where x != smaller constants... not attempted
+    if kind == "Overflow" and op == "Sub" and a is not None and b is not None and A.is_int(strip_all(b)):
+        # len(X) - k inside a loop over X that has already yielded k elements on this path
+        sa = strip_all(a)
+        if sa[0] == "len":
+            vec = sa[1]
+            n_yield = 0
+            for e in path.events:
+                if e is ev:
+                    break
+                if e[0] == "iter_next" and e[1] == "some" and len(e) > 2 and same_vector(e[2], vec):
+                    n_yield += 1
+            if n_yield >= strip_all(b)[1] >= 1:
+                return "inside a loop over the same vector (%d elements seen)" % n_yield
     if kind == "BoundsCheck":
         ln, ix = ops.get("len"), ops.get("index")
         if ln is not None and ix is not None and A.is_int(ix):
@@ -72,6 +85,25 @@ def relational_discharge(path, ev):
                     if ea == p and eb == sb:
                         return "smaller than an already checked sum"
     return None
+
+
+def same_vector(it_base, vec):
+    """is the iterated base (`('refto', loc)` or a value) the vector whose length is taken?"""
+    def fields(t, acc):
+        if isinstance(t, tuple):
+            if t and t[0] == "f" and len(t) >= 3:
+                acc.append(t[2])
+            if t and t[0] == "field" and len(t) >= 3:
+                fields(t[1], acc)
+                acc.append(t[2])
+                return
+            for x in t:
+                if isinstance(x, tuple):
+                    fields(x, acc)
+    fa, fb = [], []
+    fields(it_base, fa)
+    fields(vec, fb)
+    return bool(fa) and fa == fb
 
 
 def triage(path, tainted_pred, const_small=True):
